@@ -40,6 +40,7 @@ def gen_world(rng: random.Random, parse_friendly: bool) -> World:
     txt = SIMPLE_TEXTS if parse_friendly else TEXTS
     db = w.db(allow_properties=rng.random() < 0.5)
     d = w.m[db]
+    d["share_notes"] = (not parse_friendly) and rng.random() < 0.3
     enums = []
     for k in range(rng.randint(0, 2)):
         e = w.enum(f"en{k}", [dict(name=n, note=rng.choice(["", rng.choice(txt)]) if rng.random() < 0.3 else "",
@@ -342,6 +343,7 @@ class C10Engine:
         self.trace: List[str] = []
         self.precondition_failed = False
         real = None
+        world.share_notes = bool(world.m[self.db].get("share_notes"))
         if via == "parse":
             real = realize_by_parse(env, world, self.db)
             if real is None:
@@ -363,7 +365,9 @@ class C10Engine:
                 out[f"{key}.{lang}"] = getattr(o, lang)
             except Exception as ex:
                 out[f"{key}.{lang}"] = ["exc", type(ex).__name__]
-        for h in self.w.m:
+        # elements first, the database last: an element-level rendering must not depend on a database-level
+        # rendering having been evaluated (successfully) just before
+        for h in sorted(self.w.m, key=lambda x: self.kinds[x] == "db"):
             o = objs[h]
             k = self.kinds[h]
             for lang in ("sql", "dbml"):
@@ -379,6 +383,7 @@ class C10Engine:
         return out
 
     def compare(self, ctx: Any) -> None:
+        self.w.share_notes = False
         fresh = realize(self.w, self.env.C, self.env.renderers, via_add=True)
         a = self.render_all(self.real)
         b = self.render_all(fresh)
@@ -474,6 +479,27 @@ class C10Engine:
         elif k == "rejected_add_table":
             if op[1] not in m[self.db]["tables"]:
                 return "not contained"
+        elif k == "move_column":
+            c, t2 = op[1], op[2]
+            t1 = m[c]["table"]
+            if t1 is None or t1 == t2 or len(m[t1]["cols"]) < 2 or m[t2]["db"] != self.db:
+                return "cannot move"
+            if any(m[x]["name"] == m[c]["name"] for x in m[t2]["cols"]):
+                return "column name clash"
+            for h, d in m.items():
+                if d["kind"] == "index" and any(s[0] == "col" and s[1] == c for s in d["subjects"]):
+                    return "column used by an index"
+                if d["kind"] == "ref" and ((c in d["col1"] and len(d["col1"]) > 1) or (c in d["col2"] and len(d["col2"]) > 1)):
+                    return "column used by a composite reference"
+            w2 = w.clone()
+            w2.m[t1]["cols"].remove(c)
+            w2.m[t2]["cols"].append(c)
+            w2.m[c]["table"] = t2
+            if any(ref_clash(w2, self.db, r) for r in w2.m[self.db]["refs"]):
+                return "reference clash"
+        elif k == "glitch":
+            if op[1] not in m or m[op[1]]["kind"] != "column":
+                return "not a column"
         elif k == "gitem_add":
             _, g, t = op
             if t not in m or m[t]["kind"] != "table" or m[t]["db"] != self.db or t in m[g]["items"]:
@@ -632,6 +658,29 @@ class C10Engine:
                 self.count("fault:" + k)
             else:
                 raise Abandon("operation that must be refused was accepted (C09's business): run abandoned")
+        elif k == "move_column":
+            _, c, t2 = op[:3]
+            t1 = m[c]["table"]
+            m[t1]["cols"].remove(c)
+            m[t2]["cols"].append(c)
+            m[c]["table"] = t2
+            real[t1].delete_column(real[c])
+            real[t2].add_column(real[c])
+        elif k == "glitch":
+            # a required attribute is missing for a moment, a database-level rendering is attempted (and
+            # refused), the attribute is restored: the model is what it was
+            o = real[op[1]]
+            attr = op[2]
+            old = getattr(o, attr)
+            setattr(o, attr, None)
+            try:
+                for lang in ("sql", "dbml"):
+                    try:
+                        getattr(real[self.db], lang)
+                    except Exception:
+                        self.count("fault:glitch-render-refused")
+            finally:
+                setattr(o, attr, old)
         elif k == "gitem_add":
             m[op[1]]["items"].append(op[2])
             real[op[1]].items.append(real[op[2]])
@@ -810,7 +859,15 @@ def draw_op(rng: random.Random, eng: C10Engine) -> List[Any]:
         return ["set", h, f, {"name": rng.choice(["sn0", "sn_new"]), "text": rng.choice(TEXTS)}[f]]
     if r < 0.97:
         rr = rng.random()
-        if rr < 0.15:
+        if rr < 0.08:
+            cols = [c for t in tables for c in m[t]["cols"]]
+            c = rng.choice(cols)
+            t1 = m[c]["table"]
+            return ["move_column", c, rng.choice(tables)]
+        if rr < 0.12:
+            cols = [c for t in tables for c in m[t]["cols"]]
+            return ["glitch", rng.choice(cols), rng.choice(["type", "name"])]
+        if rr < 0.2:
             idxs = [i for t in tables for i in m[t]["idxs"]]
             if idxs and len(tables) > 1:
                 return ["rejected_add_index", rng.choice(tables), rng.choice(idxs)]
@@ -848,6 +905,12 @@ def _initial_checks(eng: C10Engine) -> Optional[str]:
     (that is C01/C02 territory, not C10)."""
     if eng.precondition_failed:
         return "parse-realisation-failed"
+    if eng.via == "api":
+        # built through the constructors (possibly with Note objects shared between elements): nothing of the
+        # harness can be at fault, so a rendering that differs from an independently built database of the same
+        # content is a violation for the empty edit sequence already
+        eng.compare({"index": -1, "op": ["construct"]})
+        return None
     exp = expected_dump(eng.w, eng.env.renderer_quals)
     got = real_dump(eng.real, eng.kinds)
     if exp != got:
@@ -865,7 +928,12 @@ PRUNE = False
 def run_ops(env: Env, wcomp: Dict[str, Any], ops: List[List[Any]], checks: Optional[List[int]] = None) -> Dict[str, Any]:
     eng = C10Engine(env, world_from_json(wcomp["w"]), wcomp["via"])
     res: Dict[str, Any] = {"violation": None}
-    pre = _initial_checks(eng)
+    try:
+        pre = _initial_checks(eng)
+    except Violation as v:
+        res.update({"violation": {"property": v.prop, "oracle": v.oracle, "signature": v.signature, "detail": v.detail},
+                    "counters": eng.counters, "trace": []})
+        return res
     if pre:
         res["precondition"] = pre
         res["counters"] = {"precondition-discarded": 1}
@@ -873,7 +941,13 @@ def run_ops(env: Env, wcomp: Dict[str, Any], ops: List[List[Any]], checks: Optio
         return res
     try:
         for idx, op in enumerate(ops):
-            eng.step(op, idx, checks is None or idx in checks or idx == len(ops) - 1)
+            chk = checks is None or idx in checks
+            if op and isinstance(op[-1], dict) and "_chk" in op[-1]:
+                # the original run compared with a fresh rebuild after a seeded subset of the edits only; a
+                # comparison is itself a sequence of render evaluations, so replay keeps the same subset
+                chk = op[-1]["_chk"]
+                op = op[:-1]
+            eng.step(op, idx, chk or idx == len(ops) - 1)
     except Abandon:
         eng.count("abandoned:unexpected-accept")
     except Violation as v:
@@ -891,7 +965,12 @@ def generate(env: Env, rseed: int, thorough: bool):
     wj = world_to_json(world)
     eng = C10Engine(env, world, via)
     res: Dict[str, Any] = {"violation": None}
-    pre = _initial_checks(eng)
+    try:
+        pre = _initial_checks(eng)
+    except Violation as v:
+        res.update({"violation": {"property": v.prop, "oracle": v.oracle, "signature": v.signature, "detail": v.detail},
+                    "counters": eng.counters, "trace": []})
+        return {"w": wj, "via": via}, [], res
     if via == "parse":
         wj = world_to_json(eng.w) if not pre else wj   # reference order was aligned with the parser's
     if pre:
@@ -913,14 +992,14 @@ def generate(env: Env, rseed: int, thorough: bool):
             if st != "veto":
                 if chk:
                     checks.append(len(ops))
-                ops.append(op)
+                ops.append(op + [{"_chk": chk}])
         if not checks or checks[-1] != len(ops) - 1:
-            eng.compare({"index": len(ops) - 1, "op": ops[-1] if ops else ["none"]})
+            eng.compare({"index": len(ops) - 1, "op": ops[-1][:-1] if ops else ["none"]})
     except Abandon:
         eng.count("abandoned:unexpected-accept")
     except Violation as v:
         checks.append(len(ops))
-        ops.append(op)
+        ops.append(op + [{"_chk": True}])
         res["violation"] = {"property": v.prop, "oracle": v.oracle, "signature": v.signature, "detail": v.detail}
     eng.count("via:" + via)
     res["counters"] = eng.counters
